@@ -143,7 +143,9 @@ class Adapter(metaclass=ABCMeta):
             "decoding graph end markers", stream_types=self.options.stream_types
         )
 
-    def namespace_declaration(self, name: str, iri: str) -> Any:  # noqa: ARG002
+    # iri is what ``self.iri`` made of the declared IRI: a str for some adapters, a term
+    # object for others. Annotated as str, the compiled decoder refuses the latter.
+    def namespace_declaration(self, name: str, iri: Any) -> Any:  # noqa: ARG002
         _adapter_missing(
             "decoding namespace declarations",
             stream_types=self.options.stream_types,
